@@ -4,6 +4,7 @@ use crate::util::{Cfg, Report};
 pub mod builder_term;
 pub mod c08;
 pub mod c09;
+pub mod c11;
 pub mod c15;
 pub mod c16;
 pub mod c19;
@@ -11,5 +12,5 @@ pub mod c19;
 pub type Monitor = fn(&Cfg, &mut Report);
 
 pub fn monitors() -> Vec<(&'static str, Monitor)> {
-    vec![("C08", c08::run as Monitor), ("C09", c09::run as Monitor), ("C15", c15::run as Monitor), ("C16", c16::run as Monitor), ("C19", c19::run as Monitor)]
+    vec![("C08", c08::run as Monitor), ("C09", c09::run as Monitor), ("C11", c11::run as Monitor), ("C15", c15::run as Monitor), ("C16", c16::run as Monitor), ("C19", c19::run as Monitor)]
 }
